@@ -503,6 +503,11 @@ class SpecEval:
         x = self.eval(args[0])
         return V('(s.arr %s)' % x.term, 'Int', 'int')
 
+    def b_off(self, args):
+        """off(s): the offset of slice s in its backing array (with arr(s): where the slice starts)"""
+        x = self.eval(args[0])
+        return V('(s.off %s)' % x.term, 'Int', 'int')
+
     def b_min(self, args):
         a, b = self.eval(args[0]), self.eval(args[1])
         return V('(imin %s %s)' % (a.term, b.term), 'Int', a.ts)
